@@ -165,6 +165,8 @@ static std::string run_program_pair(Ctx& c, Engine& E, const ProgBuf& p, bool v2
 
 int main(int argc, char** argv) {
 	vf::Args args = vf::parse_args(argc, argv, "C05");
+	const bool bounds_mode = !args.get("as").empty();   // "--as C06": whole-program part only, under ASan+UBSan, a sanitizer abort is the verdict
+	if (bounds_mode) args.prop = args.get("as");
 	const bool th = args.thorough();
 	g_ds.memory = map_bytes(randomx::DatasetSize); g_ds.dealloc = nullptr; fill_dataset_image(g_ds.memory, randomx::DatasetSize, 0xC05);
 	std::vector<Family> fam = families(th, args.seed, 2, bigsp ? 1 : 0);
@@ -193,11 +195,11 @@ int main(int argc, char** argv) {
 
 	struct Unit { int kind; int fam; uint64_t b, e; bool v2; bool light; };
 	std::vector<Unit> units;
-	units.push_back({ 0, 0, 0, 256, false, false });
+	if (!bounds_mode) units.push_back({ 0, 0, 0, 256, false, false });
 	std::vector<size_t> order; for (size_t f = 0; f < fam.size(); ++f) order.push_back(f);
 	std::sort(order.begin(), order.end(), [&](size_t a, size_t b) { return fam[a].count < fam[b].count; });   // small families first: shortest counterexamples first
 	for (size_t f : order) {
-		if (fam[f].sampling) continue;
+		if (fam[f].sampling || bounds_mode) continue;
 		uint64_t ch = 2048;
 		for (int v2 = 0; v2 < 2; ++v2) {
 			bool w1 = fam[f].name == "w1a" || fam[f].name == "w1b";
@@ -207,6 +209,7 @@ int main(int argc, char** argv) {
 	}
 	for (size_t f = 0; f < famp.size(); ++f) for (int v2 = 0; v2 < 2; ++v2) for (int light = 0; light < (bigsp ? 1 : 2); ++light) {
 		uint64_t cnt = famp[f].count; if (light) cnt = std::min<uint64_t>(cnt, th ? 4000 : 600);
+		if (bounds_mode) cnt = std::min<uint64_t>(cnt, th ? 6000 : 1200);
 		if (bigsp && !th) cnt = std::min<uint64_t>(cnt, 2000);
 		for (uint64_t b = 0; b < cnt; b += 512) units.push_back({ 2, (int)f, b, std::min(cnt, b + 512), (bool)v2, (bool)light });
 	}
@@ -253,7 +256,7 @@ int main(int argc, char** argv) {
 				fill_scratchpad(E->scratchpad(), image);
 				for (uint64_t idx = un.b; idx < un.e && R.viol.size() < 3; ++idx) {
 					f.make(idx, un.v2, p); unsigned fprc = (unsigned)(idx % 4);
-					if ((idx & 15) == 0) vf::set_current(vf::Json::obj().set("kind", "program").set("family", f.name).set("index", (unsigned long long)idx).dump());
+					if ((idx & 15) == 0 || bounds_mode) vf::set_current(vf::Json::obj().set("kind", "program").set("profile", RX_PROFILE).set("family", f.name).set("index", (unsigned long long)idx).set("v2", un.v2).set("light", un.light).set("fprc", (int)fprc).set("sp_image", image).set("program", vf::hex(p.b, ProgBytes)).set("finding_key", "c06:sanitizer:" + f.name).dump());
 					std::string d = run_program_pair(c, *E, p, un.v2, fprc, un.light, &sc, R);
 					if (!d.empty()) {
 						vf::Violation v; v.key = "c05:program:" + f.name; v.what = std::string("program ") + (un.v2 ? "v2 " : "v1 ") + f.name + " #" + std::to_string(idx) + (un.light ? " light: " : " fast: ") + d;
@@ -266,11 +269,12 @@ int main(int argc, char** argv) {
 		}
 		R.n["distinct_step_outcomes"] = outcomes.size();
 		return R;
-	}, false, 3600);
+	}, bounds_mode, 3600);
 	vf::Evidence ev; ev.level = "exploration";
 	ev.coverage.set("evaluations", (unsigned long long)(total.n["steps"] + total.n["programs"] + total.n["opcodes"])).set("distinct_nontrivial", (unsigned long long)total.n["distinct_step_outcomes"])
 		.set("exhaustive", !total.incomplete)
 		.set("rule", std::string("profile ") + RX_PROFILE + ": (a) all 256 opcodes: decoded type == cumulative frequency table of the specification; (b) every word of W1 (all opcodes x 64 register pairs x mod x imm32 boundary set; two packings) and of the sequence/saturated/branch/count families is decoded in program context by the interpreter's compileProgram and by the model, then executed alone from " + std::to_string(per_slot) + " machine states per slot drawn round-robin from a " + std::to_string(NST) + "-element alphabet (4 rounding modes x 8 integer register sets x 3 FP variants x 4 scratchpad lines): registers, touched scratchpad, rounding mode, next pc and FP-domain invariants compared; (c) whole programs (reduced W1, seq2, sat, brdist, count, sampled aesrand) interpreter == model incl. scratchpad, with NaN/subnormal/A/E monitors on every executed FP result. distinct = distinct (integer,F) register outcomes observed per shard, summed");
 	ev.assumptions = { "IEEE-754 arithmetic of the host; machine states are boundary and generated values, not all 2^128 operand pairs" };
-	return vf::finish(args, total, ev);
+	if (bounds_mode) { ev.coverage.set("rule", std::string("profile ") + RX_PROFILE + ", ASan+UBSan build: whole programs of the families (reduced W1, Sigma^2, saturated, writer, branch-distance, counter, sampled aesrand) x v1/v2 x fast/light on the interpreter; any sanitizer report (heap/stack/global out-of-bounds, use after free, undefined behaviour) aborts the case and is a violation; results are also compared with the model"); ev.coverage.set("distinct_nontrivial", (unsigned long long)total.n["programs"]); }
+	return vf::finish(args, total, ev, true, bounds_mode);
 }
